@@ -1,14 +1,15 @@
 SPECIFICATION Spec
 CONSTANTS
   MaxN = 4
-  BoxStride = 9
-  CatStride = 5
-  PairStride = 20
-  SameStride = 10
-  AttrStride = 40
+  BoxStride = 20
+  CatStride = 6
+  PairStride = 30
+  SameStride = 20
+  AttrStride = 90
   TripleStride = 30
   ValueStride = 120
-  PointStride = 12
+  PointStride = 16
+  LightStride = 2
   ShapeFrom = "named dims"
 CONSTRAINT Export
 INVARIANT ImplRefinesReq
